@@ -12,7 +12,11 @@ ROUND5 = os.environ.get('ROUND5', '0') == '1'
 ROUND6 = os.environ.get('ROUND6', '0') == '1'
 ROUND7 = os.environ.get('ROUND7', '0') == '1'
 ROUND8 = os.environ.get('ROUND8', '0') == '1'
-if ROUND8:     # eighth round M30..M32: ids get the agent number in front of the letter (C05-30v, C05-31v, ...)
+ROUND9 = os.environ.get('ROUND9', '0') == '1'
+if ROUND9:     # ninth round M33..M35: ids as in round 8 (C05-33v, ...)
+    cands = sorted(glob.glob('/tmp/M3[3-5]_out/C??-?'))
+    ROUND8 = True
+elif ROUND8:     # eighth round M30..M32: ids get the agent number in front of the letter (C05-30v, C05-31v, ...)
     cands = sorted(glob.glob('/tmp/M3[0-2]_out/C??-?'))
 elif ROUND7:     # seventh round M27..M29: agents name v/w; M27 keeps v/w, M28 -> x/y, M29 -> z/{ (mapped to za/zb)
     cands = sorted(glob.glob('/tmp/M2[7-9]_out/C??-?'))
